@@ -16,6 +16,7 @@ import (
 	"io/ioutil"
 	"math/rand"
 	"os"
+	"reflect"
 	"sort"
 	"strconv"
 	"strings"
@@ -170,7 +171,12 @@ func rs_kindOf(e pb.Entry) rs_jent {
 		return j
 	}
 	if len(e.Data) > 0 {
-		v, _ := strconv.ParseUint(string(e.Data), 10, 64)
+		// payload = decimal id, optionally followed by '.' padding (entries of unequal size)
+		d := string(e.Data)
+		if k := strings.IndexByte(d, '.'); k >= 0 {
+			d = d[:k]
+		}
+		v, _ := strconv.ParseUint(d, 10, 64)
 		j.V = v
 	}
 	return j
@@ -203,6 +209,23 @@ func rs_convMsg(m pb.Message) rs_jmsg {
 	return j
 }
 
+// rs_wireCopy: a message crosses the wire by value; the receiver must not share the entry
+// slice with the sender's log or with a duplicate still in flight (the leader rewrites the
+// term of proposed entries in place).
+func rs_wireCopy(m pb.Message) pb.Message {
+	if len(m.Entries) > 0 {
+		es := make([]pb.Entry, len(m.Entries))
+		for i, e := range m.Entries {
+			es[i] = e
+			if e.Data != nil {
+				es[i].Data = append([]byte{}, e.Data...)
+			}
+		}
+		m.Entries = es
+	}
+	return m
+}
+
 func rs_noMsg() rs_jmsg { return rs_jmsg{T: "none", Ents: []rs_jent{}, Snap: rs_noSnap()} }
 func rs_noRd() rs_jrd  { return rs_jrd{Ents: []rs_jent{}, CEnts: []rs_jent{}, Snap: rs_noSnap(), Msgs: []rs_jmsg{}} }
 
@@ -231,6 +254,8 @@ type rs_rep struct {
 	syncedHS  pb.HardState
 	restarts  int
 	snapSent  []uint64 // peers to which a MsgSnap left (ReportSnapshot owed)
+	forceLoss bool
+	stallLeft int
 }
 
 type rs_sim struct {
@@ -254,6 +279,9 @@ type rs_sim struct {
 	cnt      map[string]int
 	panicked bool
 	removedEver map[uint64]bool
+	autopipe bool
+	noAvoid  bool
+	slow     uint64 // replica that only gets one hand-out page per delivered message
 }
 
 func (s *rs_sim) inc(k string) { s.cnt[k]++ }
@@ -364,6 +392,7 @@ func (s *rs_sim) take(r *rs_rep, e rs_jev, moreApply, busySnap bool) {
 	var has bool
 	before := len(raft.VerifOutbox(r.n))
 	pre := raft.VerifState(r.n)
+	prePost, _ := s.post(r)
 	if !s.guard(r, e.Ev, func() { rd, has = r.n.StepNode(moreApply, busySnap) }) {
 		return
 	}
@@ -377,8 +406,8 @@ func (s *rs_sim) take(r *rs_rep, e rs_jev, moreApply, busySnap bool) {
 		if busySnap {
 			e.B = 1
 		}
-		noop := len(e.Out) == 0 && !has && pre.Term == postv.Term && pre.Vote == postv.Vote && pre.Role == postv.Role &&
-			pre.Lead == postv.Lead && pre.Commit == postv.Commit && pre.Last == postv.Last
+		// a tick that changed nothing the specification sees and produced nothing is not logged
+		noop := len(e.Out) == 0 && !has && reflect.DeepEqual(prePost, func() rs_jpost { p, _ := s.post(r); return p }())
 		if !(e.Ev == "tick" && noop) {
 			s.emit(r, e)
 		} else {
@@ -411,6 +440,12 @@ func (s *rs_sim) take(r *rs_rep, e rs_jev, moreApply, busySnap bool) {
 		j.CFirst = rd.CommittedEntries[0].Index
 		j.CEnts = rs_convEnts(rd.CommittedEntries)
 		s.inc("handouts")
+		if fi, la := rd.CommittedEntries[0].Index, rd.CommittedEntries[len(rd.CommittedEntries)-1].Index; fi < pre.Offset && la >= postv.Offset {
+			s.inc("handouts_spanning_stable_and_unstable")
+		}
+		if fi := rd.CommittedEntries[0].Index; fi < pre.Offset && postv.Last >= postv.Offset && postv.Commit >= postv.Offset {
+			s.inc("handouts_with_committed_unstable_behind_stable_backlog")
+		}
 		s.cnt["entries_handed_out"] += len(rd.CommittedEntries)
 	}
 	j.More = rd.MoreCommittedEntries
@@ -509,8 +544,15 @@ func (s *rs_sim) persist(r *rs_rep, part string) {
 			if !raft.IsEmptyHardState(rd.HardState) {
 				r.st.SetHardState(rd.HardState)
 			}
-			if rd.MustSync {
-				// a synchronous WAL write makes everything written so far durable
+			if !rd.MustSync && raft.IsEmptySnap(rd.Snapshot) && !raft.IsEmptyHardState(rd.HardState) &&
+				(rd.HardState.Term != r.syncedHS.Term || rd.HardState.Vote != r.syncedHS.Vote) {
+				// term or vote were written without a sync: schedule a power loss once the
+				// messages of this Ready have left (scheduling only; TLC judges the restart)
+				r.forceLoss = true
+				s.inc("unsynced_term_or_vote_writes")
+			}
+			if rd.MustSync || !raft.IsEmptySnap(rd.Snapshot) {
+				// a synchronous WAL write (and saving a snapshot) makes everything written so far durable
 				r.syncedHS, _, _ = r.st.InitialState()
 			}
 			r.pHS = true
@@ -649,13 +691,22 @@ func (s *rs_sim) stageName(r *rs_rep) string {
 func (s *rs_sim) crash(r *rs_rep) {
 	stage := s.stageName(r)
 	v := raft.VerifState(r.n)
+	snap0, _ := r.st.Snapshot()
+	inSnap := rs_contains(snap0.Metadata.ConfState.Learners, r.id) || rs_contains(snap0.Metadata.ConfState.Nodes, r.id)
+	if r.learner && !s.noAvoid && !rs_contains(v.Voters, r.id) && !inSnap {
+		// RestartNode does not know the learner role: a replica started as learner that restarts
+		// before its own storage holds the configuration entry adding it comes back as a
+		// non-learner and then refuses the leader's snapshot for good (reported; liveness only)
+		s.inc("learner_crash_avoided")
+		return
+	}
 	if v.Commit > uint64(len(s.cfg.Voters)) {
 		s.inc("crash_after_commit_" + stage)
 	}
 	s.inc("crashes")
 	lost := uint64(0)
 	hs, _, _ := r.st.InitialState()
-	if (hs.Term != r.syncedHS.Term || hs.Vote != r.syncedHS.Vote || hs.Commit != r.syncedHS.Commit) && s.rng.Intn(2) == 0 {
+	if (hs.Term != r.syncedHS.Term || hs.Vote != r.syncedHS.Vote || hs.Commit != r.syncedHS.Commit) && (r.forceLoss || s.rng.Intn(2) == 0) {
 		// the last hard state write was not one that had to be synced (Ready.MustSync false):
 		// a crash may lose it
 		r.st.SetHardState(r.syncedHS)
@@ -667,10 +718,22 @@ func (s *rs_sim) crash(r *rs_rep) {
 	r.down = true
 	r.pendq = nil
 	r.rdConfEnd = 0
+	r.forceLoss = false
 	s.emit(r, rs_jev{Ev: "crash", S: stage, A: lost})
 }
 
 func (s *rs_sim) restart(r *rs_rep) {
+	if hs0, _, _ := r.st.InitialState(); raft.IsEmptyHardState(hs0) {
+		if li, _ := r.st.LastIndex(); li == 0 {
+			// nothing was ever persisted: there is no WAL, so the data node bootstraps again
+			// (node/raft.go startRaft: !wal.Exist -> StartNode with the configured peers)
+			r.down = false
+			r.restarts++
+			s.inc("rebootstraps")
+			s.startNode(r, r.learner)
+			return
+		}
+	}
 	// production rebuilds the raft storage from the newest snapshot and the WAL entries behind
 	// it (node/raft.go replayWAL): nothing at or below the snapshot index survives a restart
 	snap, _ := r.st.Snapshot()
@@ -691,6 +754,10 @@ func (s *rs_sim) restart(r *rs_rep) {
 
 func (s *rs_sim) start(r *rs_rep, learner bool) {
 	r.st = s.newStorage(r.id)
+	s.startNode(r, learner)
+}
+
+func (s *rs_sim) startNode(r *rs_rep, learner bool) {
 	r.learner = learner
 	var peers []raft.Peer
 	boot := false
@@ -767,22 +834,52 @@ func (s *rs_sim) leaderID() uint64 {
 func (s *rs_sim) tick(r *rs_rep) {
 	r.n.Tick()
 	s.inc("ticks")
-	s.take(r, rs_jev{Ev: "tick"}, s.moreApply(), false)
+	s.take(r, rs_jev{Ev: "tick"}, s.moreApplyFor(r), false)
 }
 
-func (s *rs_sim) moreApply() bool { return s.rng.Intn(10) > 0 }
+// moreApplyFor: the application's apply queue has room (StepNode's moreEntriesToApply).  Besides
+// single refusals there are "apply stalls": several consecutive Readys are taken with
+// moreApply=false, so the applied cursor lags while entries keep committing across the
+// stable/unstable boundary (hand-outs then span storage and unstable entries under the size cap).
+func (s *rs_sim) moreApplyFor(r *rs_rep) bool {
+	if r.stallLeft > 0 {
+		r.stallLeft--
+		s.inc("stalled_steps")
+		return false
+	}
+	p := 14
+	if s.cfg.Profile == "stall" {
+		p = 5
+	}
+	if s.rng.Intn(p) == 0 {
+		r.stallLeft = 3 + s.rng.Intn(7)
+		s.inc("apply_stalls")
+		return false
+	}
+	return true
+}
 
 func (s *rs_sim) campaign(r *rs_rep) {
 	r.n.Campaign(context.TODO())
-	s.take(r, rs_jev{Ev: "campaign"}, s.moreApply(), false)
+	s.take(r, rs_jev{Ev: "campaign"}, s.moreApplyFor(r), false)
 }
 
 func (s *rs_sim) propose(r *rs_rep) {
 	s.nextVal++
 	v := s.nextVal
-	r.n.Propose(context.TODO(), []byte(strconv.FormatUint(v, 10)))
+	data := strconv.FormatUint(v, 10)
+	big := 2
+	if s.cfg.Profile == "stall" {
+		big = 4
+	}
+	if x := s.rng.Intn(10); x < big {
+		data += strings.Repeat(".", 1900+s.rng.Intn(200)) // a 2000-byte entry among small ones: size limits cut in odd places
+	} else if x == big {
+		data += strings.Repeat(".", 150+s.rng.Intn(100))
+	}
+	r.n.Propose(context.TODO(), []byte(data))
 	s.inc("proposals")
-	s.take(r, rs_jev{Ev: "propose", A: v}, s.moreApply(), false)
+	s.take(r, rs_jev{Ev: "propose", A: v}, s.moreApplyFor(r), false)
 }
 
 func rs_contains(a []uint64, x uint64) bool {
@@ -846,13 +943,13 @@ func (s *rs_sim) proposeConf(r *rs_rep, typ pb.ConfChangeType, target uint64) {
 	s.inc("conf_proposals")
 	d, _ := cc.Marshal()
 	k := rs_kindOf(pb.Entry{Type: pb.EntryConfChange, Data: d})
-	s.take(r, rs_jev{Ev: "proposeconf", CC: k}, s.moreApply(), false)
+	s.take(r, rs_jev{Ev: "proposeconf", CC: k}, s.moreApplyFor(r), false)
 }
 
 func (s *rs_sim) transfer(r *rs_rep, to uint64) {
 	r.n.TransferLeadership(context.TODO(), r.id, to)
 	s.inc("transfers")
-	s.take(r, rs_jev{Ev: "transfer", A: to}, s.moreApply(), false)
+	s.take(r, rs_jev{Ev: "transfer", A: to}, s.moreApplyFor(r), false)
 }
 
 func (s *rs_sim) deliver(i int, keep bool, busySnap bool) {
@@ -872,9 +969,10 @@ func (s *rs_sim) deliver(i int, keep bool, busySnap bool) {
 		s.inc("drops")
 		return
 	}
-	r.n.Step(context.TODO(), m)
+	jm := rs_convMsg(m)
+	r.n.Step(context.TODO(), rs_wireCopy(m))
 	s.inc("deliveries")
-	s.take(r, rs_jev{Ev: "recv", M: rs_convMsg(m)}, s.moreApply(), busySnap)
+	s.take(r, rs_jev{Ev: "recv", M: jm}, s.moreApplyFor(r), busySnap)
 	if m.Type == pb.MsgSnap {
 		s.reportSnap(m.From, m.To, true)
 	}
@@ -892,7 +990,7 @@ func (s *rs_sim) reportSnap(leader, peer uint64, ok bool) {
 		e.B = 0
 	}
 	l.n.ReportSnapshot(peer, rs_grp(peer), st)
-	s.take(l, e, s.moreApply(), false)
+	s.take(l, e, s.moreApplyFor(l), false)
 }
 
 func (s *rs_sim) eligible() []int {
@@ -926,6 +1024,20 @@ func (s *rs_sim) newPhase() int {
 	s.blocked = map[uint64]bool{}
 	x := s.rng.Intn(100)
 	live := s.liveIDs()
+	if l := s.leaderID(); l != 0 && s.rng.Intn(5) == 0 {
+		if lv := raft.VerifState(s.reps[l].n); len(lv.Learners) > 0 {
+			// the leader reaches only its learners: every other voter is cut off
+			// (a commit must still need a voter majority)
+			s.phase = "leader-with-learners"
+			for _, id := range lv.Voters {
+				if id != l {
+					s.blocked[id] = true
+				}
+			}
+			s.inc("phases_leader_with_learners")
+			return 60 + s.rng.Intn(80)
+		}
+	}
 	switch {
 	case x < 22:
 		s.phase = "calm"
@@ -1004,6 +1116,10 @@ func (s *rs_sim) randomStep() {
 		}
 		return
 	}
+	if r.forceLoss && (r.rd == nil || r.sent) && !(r.learner) {
+		s.crash(r)
+		return
+	}
 	crashP := 400
 	if s.phase == "crashy" {
 		crashP = 14
@@ -1029,6 +1145,14 @@ func (s *rs_sim) randomStep() {
 	x := s.rng.Intn(100)
 	v := raft.VerifState(r.n)
 	isLeader := v.Role == "StateLeader"
+	if s.cfg.Profile == "stall" && isLeader && s.rng.Intn(5) == 0 {
+		s.propose(r)
+		return
+	}
+	if !isLeader && v.Commit > v.Applied && s.rng.Intn(4) == 0 {
+		s.campaign(r) // a campaign while committed entries (possibly a configuration change) are unapplied
+		return
+	}
 	switch {
 	case x < 3:
 		s.campaign(r)
@@ -1046,7 +1170,7 @@ func (s *rs_sim) randomStep() {
 			s.tick(r)
 		}
 	case x < 36:
-		if isLeader && s.cfg.Profile != "noconf" {
+		if isLeader && s.cfg.Profile != "noconf" && s.cfg.Profile != "growone" {
 			s.proposeConfRandom(r)
 		} else {
 			s.tick(r)
@@ -1071,7 +1195,7 @@ func (s *rs_sim) randomStep() {
 		if isLeader {
 			peer := s.ids[s.rng.Intn(len(s.ids))]
 			r.n.ReportUnreachable(peer, rs_grp(peer))
-			s.take(r, rs_jev{Ev: "unreachable", A: peer}, s.moreApply(), false)
+			s.take(r, rs_jev{Ev: "unreachable", A: peer}, s.moreApplyFor(r), false)
 		}
 	default:
 		s.deliverSome(r)
@@ -1119,6 +1243,311 @@ func (s *rs_sim) deliverSome(r *rs_rep) {
 		}
 		s.deliver(i, y < dropP+dupP, s.rng.Intn(25) == 0)
 	}
+}
+
+// ---- directed scenario (from MC_ZRaft_Conf behaviours): a learner is promoted, the voters
+// apply the promotion while the learner is cut off, one of them campaigns, and the vote
+// request reaches the replica while it still is a learner in its own applied configuration.
+func (s *rs_sim) scenarioLearnerVote() {
+	l := s.leaderID()
+	if l == 0 || s.reps[l].rd != nil {
+		return
+	}
+	lv := raft.VerifState(s.reps[l].n)
+	if len(lv.Learners) == 0 || lv.PendingConf || lv.Transferee != 0 {
+		return
+	}
+	L := lv.Learners[0]
+	if !s.live(s.reps[L]) || s.removedEver[L] {
+		return
+	}
+	s.inc("scenario_learner_vote_started")
+	old := s.phase
+	s.phase = "calm"
+	s.blocked = map[uint64]bool{L: true}
+	s.proposeConf(s.reps[l], pb.ConfChangeAddNode, L)
+	var V uint64
+	for k := 0; k < 400 && V == 0 && !s.panicked; k++ {
+		s.randomStep()
+		for _, id := range s.ids {
+			r := s.reps[id]
+			if id != L && s.live(r) && rs_contains(raft.VerifState(r.n).Voters, L) && raft.VerifState(r.n).Role != "StateLeader" {
+				V = id
+			}
+		}
+	}
+	if V != 0 && s.live(s.reps[V]) {
+		v := s.reps[V]
+		s.drain(v)
+		if s.live(v) && v.rd == nil {
+			s.campaign(v)
+			s.drain(v)
+		}
+		s.blocked = map[uint64]bool{}
+		lr := s.reps[L]
+		for pass := 0; pass < 4; pass++ {
+			for j := 0; j < len(s.net); j++ {
+				m := s.net[j]
+				if m.To == L && (m.Type == pb.MsgVote || m.Type == pb.MsgPreVote) && s.live(lr) {
+					s.drain(lr)
+					if lr.rd == nil && raft.VerifState(lr.n).IsLearner {
+						s.inc("scenario_learner_vote_delivered")
+					}
+					s.deliver(j, false, false)
+					j--
+				}
+			}
+		}
+	}
+	s.blocked = map[uint64]bool{}
+	s.phase = old
+}
+
+// finishReady completes the outstanding Ready of r (persist, owed conf changes, send, advance)
+// without applying or polling anything else.
+func (s *rs_sim) finishReady(r *rs_rep) {
+	for k := 0; k < 16 && s.live(r) && r.rd != nil; k++ {
+		switch {
+		case !(r.pEnts && r.pHS):
+			s.persist(r, "all")
+		case r.rdConfEnd > 0:
+			s.applyThroughConf(r)
+		case !r.sent:
+			s.send(r)
+		default:
+			s.advance(r)
+		}
+	}
+}
+
+// calmRounds: n rounds in which every unblocked live replica completes its pipeline and
+// applies, the leader ticks once, and everything in flight between unblocked replicas is delivered.
+func (s *rs_sim) calmRounds(n int) {
+	for k := 0; k < n && !s.panicked; k++ {
+		for _, id := range s.ids {
+			if r := s.reps[id]; s.live(r) && !s.blocked[id] {
+				s.settleOne(r)
+			}
+		}
+		if l := s.leaderID(); l != 0 && !s.blocked[l] && s.reps[l].rd == nil {
+			s.tick(s.reps[l])
+			s.drain(s.reps[l])
+		}
+		batch := s.net
+		s.net = nil
+		for _, m := range batch {
+			if s.blocked[m.To] || s.blocked[m.From] {
+				s.net = append(s.net, m)
+				continue
+			}
+			r := s.reps[m.To]
+			if r == nil || !s.live(r) {
+				continue
+			}
+			s.settleOne(r)
+			if !s.live(r) || r.rd != nil || (m.Type == pb.MsgProp && raft.VerifState(r.n).Lead == 0) {
+				continue
+			}
+			jm := rs_convMsg(m)
+			r.n.Step(context.TODO(), rs_wireCopy(m))
+			s.inc("deliveries")
+			s.take(r, rs_jev{Ev: "recv", M: jm}, true, false)
+			s.settleOne(r)
+			if m.Type == pb.MsgSnap {
+				if l := s.reps[m.From]; s.live(l) {
+					s.drain(l)
+				}
+				s.reportSnap(m.From, m.To, true)
+			}
+		}
+	}
+}
+
+// settleOne: complete r's pipeline and apply everything - except for the replica marked slow,
+// which only completes its outstanding Ready (one hand-out page per delivered message).
+func (s *rs_sim) settleOne(r *rs_rep) {
+	if s.slow == r.id {
+		s.finishReady(r)
+		for s.live(r) && r.rd == nil && len(r.pendq) > 0 {
+			s.applyThroughConf(r)
+		}
+		return
+	}
+	s.drain(r)
+}
+
+func (s *rs_sim) proposeSized(r *rs_rep, size int) {
+	s.nextVal++
+	v := s.nextVal
+	data := strconv.FormatUint(v, 10)
+	if size > 0 {
+		data += strings.Repeat(".", size)
+	}
+	r.n.Propose(context.TODO(), []byte(data))
+	s.inc("proposals")
+	s.take(r, rs_jev{Ev: "propose", A: v}, true, false)
+}
+
+// scenarioStallCatchup (profile stall; from the restart rule of MC_ZRaft_Crash and the hand-out
+// pagination of TakeReady): a follower persists a run of committed entries of mixed sizes
+// (small, ~2000 bytes, small ...), crashes, the others commit more entries, the follower
+// restarts (applied = snapshot index: a multi-page backlog of stable committed entries) and
+// works through the backlog one Ready page per delivered message while the leader's catch-up
+// appends (entries and a commit index that covers them in one message) keep arriving.
+func (s *rs_sim) scenarioStallCatchup() {
+	s.phase = "stall-catchup"
+	for k := 0; k < 80 && s.leaderID() == 0 && !s.panicked; k++ {
+		for _, id := range s.ids {
+			if r := s.reps[id]; s.live(r) {
+				s.drain(r)
+				if s.live(r) && r.rd == nil && s.leaderID() == 0 {
+					s.tick(r)
+				}
+			}
+		}
+		s.calmRounds(1)
+	}
+	l := s.leaderID()
+	if l == 0 {
+		return
+	}
+	s.calmRounds(3)
+	lv := raft.VerifState(s.reps[l].n)
+	var f uint64
+	for _, id := range lv.Voters {
+		if id != l && s.live(s.reps[id]) && !s.reps[id].learner {
+			f = id
+		}
+	}
+	if f == 0 {
+		return
+	}
+	sizes := func(n int) []int {
+		out := make([]int, n)
+		for i := range out {
+			switch s.rng.Intn(5) {
+			case 0, 1:
+				out[i] = 1900 + s.rng.Intn(200)
+			case 2:
+				out[i] = 150 + s.rng.Intn(100)
+			}
+		}
+		return out
+	}
+	for _, sz := range sizes(7 + s.rng.Intn(4)) {
+		if lr := s.reps[s.leaderID()]; s.leaderID() != 0 && s.live(lr) && lr.rd == nil {
+			s.proposeSized(lr, sz)
+		}
+		s.calmRounds(2)
+	}
+	fr := s.reps[f]
+	if !s.live(fr) {
+		return
+	}
+	s.drain(fr)
+	if s.rng.Intn(3) > 0 {
+		s.crash(fr)
+	} else {
+		s.blocked = map[uint64]bool{f: true} // the variant without a restart: a follower that lags
+		fr.stallLeft = 1 << 20
+	}
+	for _, sz := range sizes(5 + s.rng.Intn(4)) {
+		if lr := s.reps[s.leaderID()]; s.leaderID() != 0 && s.live(lr) && lr.rd == nil {
+			s.proposeSized(lr, sz)
+		}
+		s.calmRounds(2)
+	}
+	if fr.down && !fr.gone {
+		s.restart(fr)
+	}
+	fr.stallLeft = 0
+	s.blocked = map[uint64]bool{}
+	if !s.live(fr) {
+		return
+	}
+	s.inc("scenario_stall_catchup_started")
+	s.slow = f
+	s.calmRounds(40)
+	s.slow = 0
+	s.calmRounds(2)
+}
+
+// scenarioGrowOne (profile growone; from MC_ZRaft_Conf behaviours and the restart rule): the
+// group grows from the single voter 1; replica 1 snapshots while it is alone, more than one
+// Ready page of ordinary entries and then AddNode 2, AddNode 3 follow in its log; 1 crashes,
+// the others elect a leader, 1 restarts from the old snapshot (membership {1}) and its election
+// timer fires before the application has re-applied the configuration entries.
+func (s *rs_sim) scenarioGrowOne() {
+	s.phase = "grow-one"
+	r1 := s.reps[1]
+	if !s.live(r1) {
+		return
+	}
+	s.drain(r1)
+	s.campaign(r1)
+	s.drain(r1)
+	if !s.live(r1) || raft.VerifState(r1.n).Role != "StateLeader" {
+		return
+	}
+	for i := 0; i < 3; i++ {
+		s.propose(r1)
+		s.drain(r1)
+	}
+	s.snapshot(r1)
+	for i := 0; i < 4+s.rng.Intn(3); i++ {
+		s.propose(r1)
+		s.drain(r1)
+	}
+	for _, id := range []uint64{2, 3} {
+		if s.reps[id] == nil || !s.live(r1) || r1.rd != nil {
+			return
+		}
+		s.proposeConf(r1, pb.ConfChangeAddNode, id)
+		s.calmRounds(8)
+	}
+	if !s.live(r1) || r1.rd != nil {
+		return
+	}
+	s.propose(r1)
+	s.calmRounds(4)
+	if !s.live(r1) || len(raft.VerifState(r1.n).Voters) < 3 {
+		return
+	}
+	s.drain(r1)
+	s.crash(r1)
+	for k := 0; k < 60 && !s.panicked; k++ {
+		if l := s.leaderID(); l != 0 && l != 1 {
+			break
+		}
+		for _, id := range []uint64{2, 3} {
+			if r := s.reps[id]; s.live(r) {
+				s.drain(r)
+				if s.live(r) && r.rd == nil {
+					s.tick(r)
+				}
+			}
+		}
+		s.calmRounds(1)
+	}
+	s.calmRounds(2)
+	if r1.down && !r1.gone {
+		s.restart(r1)
+	}
+	if !s.live(r1) {
+		return
+	}
+	s.inc("scenario_grow_one_restarted")
+	s.blocked = map[uint64]bool{1: true}
+	r1.stallLeft = 1 << 20 // the application has not re-applied anything yet
+	for k := 0; k < 3*s.elTick && s.live(r1) && !s.panicked; k++ {
+		s.finishReady(r1)
+		if s.live(r1) && r1.rd == nil {
+			s.tick(r1)
+		}
+	}
+	s.finishReady(r1)
+	r1.stallLeft = 0
+	s.blocked = map[uint64]bool{}
 }
 
 // ---- heal and settle (logical time): every live replica gets fair rounds of one tick,
@@ -1218,9 +1647,10 @@ func (s *rs_sim) settle() bool {
 				if m.Type == pb.MsgProp && raft.VerifState(r.n).Lead == 0 {
 					continue
 				}
-				r.n.Step(context.TODO(), m)
+				jm := rs_convMsg(m)
+				r.n.Step(context.TODO(), rs_wireCopy(m))
 				s.inc("deliveries")
-				s.take(r, rs_jev{Ev: "recv", M: rs_convMsg(m)}, true, false)
+				s.take(r, rs_jev{Ev: "recv", M: jm}, true, false)
 				s.drain(r)
 				if m.Type == pb.MsgSnap {
 					if l := s.reps[m.From]; s.live(l) {
@@ -1274,6 +1704,14 @@ func (s *rs_sim) runScript(path string) {
 			s.inc("script_diverged_ops")
 		} else {
 			s.scripted++
+		}
+		if s.autopipe {
+			// behaviours of a family with the collapsed Ready pipeline: complete the pipeline
+			for _, id := range s.ids {
+				if r := s.reps[id]; s.live(r) && (r.rd != nil || op.N == id) {
+					s.drain(r)
+				}
+			}
 		}
 	}
 }
@@ -1425,6 +1863,8 @@ func raftsim(args []string) error {
 	script := fs.String("script", "", "ndjson script of specification actions (from a TLC behaviour)")
 	allow1 := fs.Bool("allow1", false, "allow shrinking to a single voter (trigger of a recorded finding)")
 	eltick := fs.Int("eltick", 0, "")
+	noavoid := fs.Bool("noavoid", false, "do not keep the triggers of recorded findings out of the schedule")
+	autopipe := fs.Bool("autopipe", false, "script mode: complete the Ready pipeline after every scripted step")
 	nosettle := fs.Bool("nosettle", false, "")
 	if err := fs.Parse(args); err != nil {
 		return err
@@ -1438,6 +1878,8 @@ func raftsim(args []string) error {
 	}
 	s := &rs_sim{rng: rand.New(rand.NewSource(*seed)), w: w, reps: map[uint64]*rs_rep{}, blocked: map[uint64]bool{},
 		cnt: map[string]int{}, removedEver: map[uint64]bool{}, allow1: *allow1, storage: *storage, nextVal: 100}
+	s.autopipe = *autopipe
+	s.noAvoid = *noavoid
 	s.dir = os.Getenv("ZR_SCRATCH")
 	if s.dir == "" {
 		s.dir = "."
@@ -1484,11 +1926,20 @@ func raftsim(args []string) error {
 		if *script != "" {
 			s.runScript(*script)
 		}
+		if s.cfg.Profile == "growone" {
+			s.scenarioGrowOne()
+		}
+		if s.cfg.Profile == "stall" {
+			s.scenarioStallCatchup()
+		}
 		// learners named on the command line: added by whoever leads, early in the run
 		pendingLearners := append([]uint64{}, s.cfg.Learners...)
 		phaseEnd := 0
 		for s.step = 0; s.step < *steps && !s.panicked; s.step++ {
 			if s.step >= phaseEnd {
+				if s.cfg.Profile == "mixed" && s.rng.Intn(3) == 0 {
+					s.scenarioLearnerVote()
+				}
 				phaseEnd = s.step + s.newPhase()
 			}
 			if len(pendingLearners) > 0 {
